@@ -19,6 +19,10 @@ FINDINGS = os.path.join(VERIF, "known_findings.txt")
 NCPU = os.cpu_count() or 4
 
 
+import threading
+_N_LOCK = threading.Lock()
+
+
 class Inconclusive(Exception):
     """The machinery could not reach a verdict (exit 2)."""
 
@@ -140,8 +144,10 @@ def run_tlc(ctx, family, module, cfg, mode="mc", workers=None, files=None, timeo
             simulate=None, depth=None, coverage=False, dfs=False, extra=(), heap=None, name=None):
     """Run TLC in a scratch copy of spec/common + spec/<family>. cfg is a file name in the
     family directory or the text of a configuration."""
-    ctx.n_tlc += 1
-    d = ctx.sub("tlc%02d-%s" % (ctx.n_tlc, name or module))
+    with _N_LOCK:
+        ctx.n_tlc += 1
+        n_tlc = ctx.n_tlc
+    d = ctx.sub("tlc%02d-%s" % (n_tlc, name or module))
     for src in glob.glob(os.path.join(SPEC, "common", "*.tla")) + glob.glob(os.path.join(SPEC, family, "*")):
         if os.path.isfile(src):
             shutil.copy(src, d)
